@@ -1,15 +1,10 @@
 #!/bin/sh
 # Runs the checks named in benign/<id>/meta.json against a scratch worktree with the benign (property-preserving)
-# change applied.  A VIOLATION here is a false alarm of the machinery.  usage: run_benign.sh [id ...]
+# change applied (three at a time).  A VIOLATION here is a false alarm of the machinery.  usage: run_benign.sh [id ...]
 cd /verif
 ids="$@"; [ -n "$ids" ] || ids=$(ls benign)
 for id in $ids; do
   for prop in $(python3 -c "import json;print(' '.join(json.load(open('benign/$id/meta.json'))['checks']))"); do
-    printf "%s %s: " "$id" "$prop"
-    out=$(TAIL=400 tools/try_seed.sh /verif/benign/$id/patch.diff $prop 2>&1)
-    v=$(printf "%s\n" "$out" | grep -c "^VIOLATION")
-    d=$(printf "%s\n" "$out" | grep -c "^DRIFT")
-    m=$(printf "%s\n" "$out" | grep -c "MACHINERY-FAILURE")
-    echo "violations=$v drift_lines=$d machinery_failures=$m"
+    echo "$id $prop"
   done
-done
+done | xargs -P 3 -L 1 sh -c 'out=$(TAIL=400 tools/try_seed.sh /verif/benign/$0/patch.diff $1 2>&1); v=$(printf "%s\n" "$out" | grep -c "^VIOLATION"); d=$(printf "%s\n" "$out" | grep -c "^DRIFT"); m=$(printf "%s\n" "$out" | grep -c "MACHINERY-FAILURE"); echo "$0 $1: violations=$v drift_lines=$d machinery_failures=$m"'
